@@ -7,6 +7,7 @@ import (
 	"encoding/json"
 	"fmt"
 	"net/url"
+	"os"
 	"strings"
 	"time"
 
@@ -16,6 +17,8 @@ import (
 
 	"verif/harness"
 )
+
+var traceOn = os.Getenv("VERIF_TRACE") != ""
 
 // ---- op language (§1.5 of DESIGN.md) --------------------------------------------------
 
@@ -802,6 +805,13 @@ func (m *Machine) Exec(i int, op Op) *Violation {
 		return nil
 	}
 	s.Post = m.W.Store.Snapshot()
+	if traceOn {
+		if s.Resp != nil {
+			fmt.Printf("TRACE %2d %-12s pid=%q secret=%.24q -> %d loc=%q err=%v panic=%v\n         sess=%v cook=%d calls=%v\n", i, op.K, s.Pid, s.Secret, s.Resp.Status, s.Resp.Location, s.Resp.Rec.HandlerErr, s.Resp.Panic, s.Resp.SessAfter, len(s.Resp.CookAfter), s.Resp.Calls)
+		} else {
+			fmt.Printf("TRACE %2d %-12s %+v\n", i, op.K, op)
+		}
+	}
 	m.Trace.add(op.K, op.Src, op.Mut, m.outcomeClass(s))
 	if m.Mon == nil {
 		return nil
